@@ -106,6 +106,79 @@ class C06(PropBase):
         # F13: a named journal zone whose offset had seconds (outside the model)
         for ts in ["1900-01-01", "1921-04-30T12:00:00", "2024-01-01"]:
             out.append(self.mk("named-zone", txn(ts=ts), cfg={"tz": {"name": "Europe/Helsinki"}}))
+        out.extend(self.design_classes())
+        return out
+
+    def design_classes(self):
+        """the boundary classes DESIGN section 5 lists for C06, each under its own `kind` so that the evidence
+        (`input_classes`) shows how many cases of each class a run held"""
+        out = []
+        loc0 = ["geo:-0,-0", "geo:-0.0,0,-0", "geo:0,-0.000", "geo:-0,-0,-0.0", "geo:-0.0000000000000000000000000000,-0"]
+        # empty code `()`, empty description `'`, alone / together / with metadata, comments and blanks around them
+        for hl in ["()", "( )", "(\t)", "'", "' ", "'\t ", "() '", "( ) ' ", "()\t'", "() 'd", "(c) '", "()  ", "'  "]:
+            for meta in ["", " # uuid: %s\n" % U]:
+                out.append(self.mk("b:empty-code-desc", "2024-01-01 " + hl + "\n" + meta + " a  1\n b\n"))
+                out.append(self.mk("b:empty-code-desc", "2024-01-01T10:00:00Z " + hl + "\n" + meta + " ;\n a  1 ;\n b ;\n"))
+        # empty comment `;` and comments with leading / trailing blanks, on header, posting and last posting
+        for c in [";", "; ", ";  ", ";\t", "; \t ", ";  lead", "; trail  ", ";   both   ", ";\tlead-tab", "; trail-tab\t", "; ;", ";  ; "]:
+            kind = "b:empty-comment" if c.strip() == ";" else "b:comment-blanks"
+            out.append(self.mk(kind, txn(comments=[c])))
+            out.append(self.mk(kind, txn(comments=[c, c])))
+            out.append(self.mk(kind, txn(code="", desc="", comments=[c], posts=["a  1 " + c, "b " + c])))
+            out.append(self.mk(kind, txn(posts=["a  1 EUR " + c, "b  -1 EUR" + c])))
+            out.append(self.mk(kind, txn(posts=["a  2 ACME @ 1.50 EUR " + c, "b\t" + c])))
+            out.append(self.mk(kind, txn(posts=["a  -2 ACME = -3.00 EUR" + c, "b"])))
+        # `=` totals with negative amounts (sign rule: total and amount have the same sign)
+        for a, t in itertools.product(["-1", "-3", "-0.5", "-2.50", "-7.000", "-123.456", "-0.0000001"],
+                                      ["-1", "-10", "-0.5", "-4.50", "-100.000", "-0.01", "-79228162514264337593543950335"]):
+            out.append(self.mk("b:total-negative", txn(posts=["a  %s ACME = %s EUR" % (a, t), "b"])))
+            out.append(self.mk("b:total-negative", txn(posts=["a  %s ACME = %s EUR ; c" % (a, t), "b  %s EUR" % t[1:]])))
+        for a, t in [("-1", "1"), ("1", "-1"), ("-1", "0"), ("-1", "-0"), ("-1", "-0.00")]:
+            out.append(self.mk("b:total-negative", txn(posts=["a  %s ACME = %s EUR" % (a, t), "b"])))
+        # locations with `-0` coordinates (a negative zero is read as zero and printed without the sign)
+        for l in loc0:
+            out.append(self.mk("b:geo-neg-zero", txn(meta=" # location: %s\n" % l)))
+            out.append(self.mk("b:geo-neg-zero", txn(meta=" # uuid: %s\n # location: %s\n # tags: a\n" % (U, l), code="", desc="")))
+            out.append(self.mk("b:geo-neg-zero", txn(meta=" #  location:   %s  \n" % l.replace(",", " , "))))
+        # amounts, prices and totals with trailing zeros (the stored scale is what the export prints)
+        for a in ["1.0", "1.00", "-1.000", "10.10", "0.10", "-0.0100", "100.0000000000", "1.0000000000000000000000000000", "-2.50"]:
+            out.append(self.mk("b:trailing-zeros", txn(posts=["a  " + a, "b"])))
+            out.append(self.mk("b:trailing-zeros", txn(posts=["a  " + a + " EUR", "b  " + common.neg_text(a) + " EUR"])))
+            for pr in ["2.0", "2.50", "1.000", "0.500"]:
+                if len(a) < 20:
+                    out.append(self.mk("b:trailing-zeros", txn(posts=["a  %s ACME @ %s EUR" % (a, pr), "b"])))
+            tot = ("-" if a.startswith("-") else "") + "3.00"
+            out.append(self.mk("b:trailing-zeros", txn(posts=["a  %s ACME = %s EUR" % (a, tot), "b"])))
+        # CRLF input: every kind of line ends with \r\n
+        full = txn(ts="2024-05-05T05:05:05.5+05:45", code="", desc="", meta=" # uuid: %s\n # location: geo:-0,-0.0,0\n # tags: a, b:c\n" % U,
+                   comments=[";", ";  x  "], posts=["a  -2 ACME = -3.00 EUR ;", "b  1.50 ACME @ 2.0 EUR ;  c ", "c ;"])
+        plain = txn(ts="2024-05-06", posts=["a  1.00", "b"])
+        for text in [full, plain, full + "\n" + plain, plain + "\n\n" + full + "\n", "\n" + full + " \n\t\n" + plain]:
+            out.append(self.mk("b:crlf", text.replace("\n", "\r\n")))
+            out.append(self.mk("b:crlf", text.replace("\n", "\r\n", 3)))           # mixed line endings
+        for c, d in itertools.product(["", "c"], ["", "d ", " d"]):
+            out.append(self.mk("b:crlf", txn(code=c, desc=d, comments=[";", "; x "]).replace("\n", "\r\n")))
+        # offsets: -00:00 / +00:00 / Z, +14:00 / -12:00, the extremes, minutes above 59 (accepted by the code)
+        for off in ["-00:00", "+00:00", "Z", "+14:00", "-12:00", "+13:45", "-09:30", "+25:59", "-25:59", "+00:59", "-00:59", "+00:99", "-24:99", "+26:00", "-26:00", "+25:60"]:
+            for ts in ["2024-06-30T12:34:56", "2024-01-01T00:00:00", "2024-12-31T23:59:59.999999999", "0000-01-01T00:00:00", "9999-12-30T21:00:00"]:
+                out.append(self.mk("b:offset", txn(ts=ts + off)))
+        # nanosecond fractions: 1..9 digits, leading / trailing zeros, extremes
+        for fr in ["0", "1", "9", "000000001", "999999999", "123456789", "100000000", "000000000", "10", "01", "5000", "000000010", "1234567890"]:
+            for tail in ["", "Z", "+02:00", "-00:00"]:
+                out.append(self.mk("b:ns-fraction", txn(ts="2024-06-30T12:34:56." + fr + tail)))
+            out.append(self.mk("b:ns-fraction", txn(ts="1969-12-31T23:59:59." + fr + "Z")))
+        # years 0000 and 9999, also across the year boundary through offset, configured zone and default time
+        ycfgs = [{}, {"tz": {"offset": "+14:00"}}, {"tz": {"offset": "-12:00"}, "default_time": "23:59:59.999999999"}, {"tz": {"offset": "+05:45"}, "default_time": "00:00:00.000000001"}]
+        for ts in ["0000-01-01", "0000-12-31", "0000-02-29", "0000-01-01T00:00:00", "0000-01-01T00:00:00Z", "0000-01-01T00:00:00+14:00", "0000-01-01T00:00:00-12:00",
+                   "0000-01-01T00:00:00.000000001+25:59", "0000-12-31T23:59:59.999999999-25:59", "9999-01-01", "9999-12-30", "9999-12-31", "9999-12-30T22:00:00.999999999Z",
+                   "9999-12-30T22:00:01Z", "9999-12-31T23:59:59+25:59", "9999-12-31T23:59:59.999999999+14:00", "9999-12-31T00:00:00+02:00", "9999-12-30T00:00:00-25:59",
+                   "0001-01-01T00:00:00+00:01", "0000-12-31T23:59:59.999999999-00:01"]:
+            for cfg in ycfgs:
+                out.append(self.mk("b:year-0000-9999", txn(ts=ts), cfg=dict(cfg)))
+        # F13, fixed-offset form: a *configured* offset with seconds (`%:z` accepts `+HH:MM:SS`) is printed with seconds
+        for off in ["+01:39:49", "-00:00:01", "+00:00:59"]:
+            for ts in ["2024-01-01", "2024-01-01T12:00:00", "2024-01-01T12:00:00+02:00"]:
+                out.append(self.mk("cfg-offset-seconds", txn(ts=ts), cfg={"tz": {"offset": off}}))
         return out
 
     def gen(self, rng, tier, focus=None):
@@ -136,6 +209,10 @@ class C06(PropBase):
             return None
         c = {k: v for k, v in case.items() if k not in ("kind",)}
         c["cfg"] = model_cfg(case.get("cfg", {}))
+        off = (case.get("cfg", {}).get("tz") or {}).get("offset", "")
+        if off.count(":") == 2:                    # `+HH:MM:SS` (model_tscfg reads hours and minutes only)
+            sec = int(off.split(":")[2])
+            ts = dict(ts, offset=ts["offset"] + (-sec if off.startswith("-") else sec))
         c["tscfg"] = ts
         c["want"] = ["txns", "identity", "roundtrip"]
         return c
@@ -181,6 +258,13 @@ class C06(PropBase):
         rt = model["out"]["roundtrip"]
         if rt.get("r") == "UNDEF":
             return "skip"
+        if has_offset_seconds(ib["v"]):
+            # F13 inside the model (a configured offset with seconds): model and implementation print the same
+            # `+HH:MM:SS`, and the model, too, does not read it back (Props/C06b `offset_seconds_not_tsOK`)
+            v = rt.get("v", {})
+            if rt.get("r") == "OK" and v.get("reparse") == "OK":
+                return "the model re-parses an offset with seconds: %s" % v
+            return None
         if rt.get("r") != "OK":
             return "model round trip status %s" % rt.get("r")
         v = rt["v"]
@@ -237,18 +321,25 @@ class C06(PropBase):
                 "spacings, empty and blank-padded comments on headers and postings, the three timestamp notations with 1-9 fraction digits, "
                 "offsets -25:59..+25:59, configured zone offset and default time, amounts with leading/trailing zeros and 28/29 digits, '@' "
                 "prices and '=' totals over amount/price grids, opening positions, unusual account/commodity names, equal-key orderings, "
-                "CRLF, strict/audit settings, a named zone (F13)) and random journal ASTs with every header feature rendered in random "
+                "CRLF, strict/audit settings, a named zone (F13); and, one kind each (b:*), the classes of DESIGN section 5: empty code '()', empty "
+                "description, empty comment ';', comments with leading/trailing blanks, '=' totals with negative amounts, '-0' coordinates, "
+                "trailing zeros, CRLF and mixed line endings, offsets -00:00/+14:00/extremes/minutes > 59, 1-9 digit nanosecond fractions, "
+                "years 0000 and 9999 across offsets and configured zones, a configured offset with seconds (F13, fixed-offset form)) "
+                "and random journal ASTs with every header feature rendered in random "
                 "layouts; non-trivial = accepted by the implementation; distinct = sha256 of the implementation case line")
 
     def trusted_base(self):
         return super().trusted_base() + [
             "rust_decimal division is a parameter of the printer (contract DivExact); the driver's Dec.divQuot covers exact integer "
             "quotients, other unit prices are UNDEF (skipped by the tie, still checked by the oracle)",
-            "civil-date arithmetic of Model/Time (civilAt / daysFromCivil) is validated by the tie, its inverse law is a hypothesis of the "
-            "timestamp round-trip theorem"]
+            "for the model's own division Dec.divQuot the contract DivExact is a theorem on every accepted posting "
+            "(Props/C06b accepted_unit_price_div_exact); that rust_decimal's Div agrees with it is what the tie checks: the printed "
+            "unit price of every generated '@' posting is compared byte for byte",
+            "civil-date arithmetic of Model/Time (civilAt / daysFromCivil) is validated by the tie; its inverse law is proved for all "
+            "instants (Lemmas/Time), so the timestamp round trip has no per-instant hypothesis (Props/C06b tsOK_of_resolved)"]
 
     def assumptions(self):
-        return ["journal zone is a fixed offset (named zones: F13, known finding)",
+        return ["journal zone is a fixed offset of whole minutes (named zones and configured offsets with seconds: F13, known finding)",
                 "unit-price products are exact (ExactDomain); otherwise F17"]
 
 
